@@ -22,60 +22,50 @@ MAY_PANIC = (
 INDEX_FNS = ("std::ops::Index::index", "std::ops::IndexMut::index_mut")
 
 
+def call_graph(db):
+    g = getattr(db, "_call_graph", None)
+    if g is None:
+        g = CallGraph(db)
+        db._call_graph = g
+    return g
+
+
 class CallGraph:
     def __init__(self, db):
+        import json as _json
+        import os as _os
         self.db = db
         self.edges = defaultdict(set)
         self.trait_impls = defaultdict(list)  # trait method path -> impl method defs
-        for k, b in db.hir.items():
-            tr = b.get("impl_trait")
-            if tr:
-                name = k.split("::")[-1]
+        self.calls = _json.load(open(_os.path.join(db.dir, "calls.json")))
+        mir = db.mir
+        for k in db.hir.keys():
+            # <Type as Trait>::method
+            if k.startswith("<") and " as " in k:
+                head, _, name = k.rpartition("::")
+                tr = head[head.index(" as ") + 4:-1]
                 self.trait_impls["%s::%s" % (tr, name)].append(k)
-        for k, b in db.mir.items():
-            for i, blk in enumerate(b["blocks"]):
-                for s in blk["s"]:
-                    rv = s.get("rv")
-                    if not rv:
-                        continue
-                    if rv["k"] == "Aggregate" and "closure" in rv:
-                        self.edges[k].add(rv["closure"])
-                    for o in self._ops(rv):
-                        self._fnptr(k, o)
-                t = blk["t"]
-                if t["k"] == "Call":
-                    for a in t["args"]:
-                        self._fnptr(k, a)
-                    c = t.get("r")
-                    f = t.get("f")
-                    if c and c in db.mir:
-                        self.edges[k].add(c)
-                    elif f and f in db.mir:
-                        self.edges[k].add(f)  # direct / provided method
-                        if f in self.trait_impls and (t.get("virtual") or not c):
-                            for im in self.trait_impls[f]:
-                                self.edges[k].add(im)
-                    elif f and f in self.trait_impls:
-                        # unresolved (generic or dyn) call of a local-trait or std-trait method: fan out
-                        for im in self.trait_impls[f]:
-                            self.edges[k].add(im)
+        for k, e in self.calls.items():
+            for c in e["closures"]:
+                self.edges[k].add(c)
+            for fn, r in e["fnptrs"]:
+                tgt = r or fn
+                if tgt in mir:
+                    self.edges[k].add(tgt)
+                elif fn in self.trait_impls and not r:
+                    self.edges[k].update(self.trait_impls[fn])
+            for f, c, virt in e["calls"]:
+                if c and c in mir:
+                    self.edges[k].add(c)
+                elif f and f in mir:
+                    self.edges[k].add(f)
+                    if f in self.trait_impls and (virt or not c):
+                        self.edges[k].update(self.trait_impls[f])
+                elif f and f in self.trait_impls:
+                    self.edges[k].update(self.trait_impls[f])
 
-    def _ops(self, rv):
-        for kk in ("op", "a", "b"):
-            if isinstance(rv.get(kk), dict):
-                yield rv[kk]
-        for o in rv.get("ops", ()) or ():
-            yield o
-
-    def _fnptr(self, k, o):
-        c = o.get("k")
-        if c and "fn" in c:
-            tgt = c.get("r") or c["fn"]
-            if tgt in self.db.mir:
-                self.edges[k].add(tgt)
-            elif c["fn"] in self.trait_impls and not c.get("r"):
-                for im in self.trait_impls[c["fn"]]:
-                    self.edges[k].add(im)
+    def callers_of(self, callee):
+        return [k for k, e in self.calls.items() if any(c == callee or f == callee for f, c, _v in e["calls"])]
 
     def reach(self, entries, stop=()):
         seen = set()
@@ -176,6 +166,11 @@ def auto_discharge(db, body, tm, site):
         ln, ix = op_const_int(d["len"]), op_const_int(d["index"])
         if ln is not None and ix is not None and ix < ln:
             return "constant index %d into fixed-size array of %d" % (ix, ln)
+    if site["kind"] == "divzero":
+        c = tm.operand(t["cond"])
+        # cond is `divisor == 0` (asserted false); a non-zero literal divisor can never trip it
+        if c[0] == "bin" and c[1] == "Eq" and c[2][0] == "const" and c[3][0] == "const" and c[2][1] != c[3][1]:
+            return "division by the non-zero literal %d" % c[2][1]
     return None
 
 
@@ -186,7 +181,7 @@ def reach_rule(db, rep, r, entries, scope_prefixes=None, allow=None, site_allow=
     site_allow: {site key: reason}."""
     allow = allow or {}
     site_allow = site_allow or {}
-    g = graph or CallGraph(db)
+    g = graph or call_graph(db)
     missing = [e for e in entries if e not in db.mir]
     rep.anchor(not missing, "entry points %s" % missing)
     reach = g.reach(entries, stop=stop)
